@@ -88,7 +88,9 @@ func GetCaveats[T Caveat](c *CaveatSet) (ret []T) {
 		}
 
 		if wc, isWrapper := cav.(WrapperCaveat); isWrapper {
-			ret = append(ret, GetCaveats[T](wc.Unwrap())...)
+			if inner := wc.Unwrap(); inner != nil {
+				ret = append(ret, GetCaveats[T](inner)...)
+			}
 		}
 	}
 	return ret
